@@ -100,3 +100,57 @@ PROPS["C01"] = {
         Leg("fuzz-buffer", "c01", "", engine="native-fuzz", fuzz="FuzzBuffer", fuzztime=90, tiers=("thorough",)),
     ],
 }
+
+PROPS["C02"] = {
+    "title": "Stream segmentation is lossless: delivered raw bytes concatenate to the input",
+    "level": "exploration",
+    "technique": "property-based testing (rapid) over streams x channel capacities x pacing scripts x GOMAXPROCS, plus a -race leg; oracle: concatenation equals input (compared after the run), no empty message, closed exactly once",
+    "level_text": ("Generated-input and sampled-schedule exploration against an implementation-independent oracle (byte equality of the concatenation with "
+                   "the input, evaluated after the whole run so that a reused buffer shows; exactly one close observed by running the handler under recover). "
+                   "Streams come from the adversarial grammar plus raw bytes of every 0xD3 density and streams that end inside leader, payload or CRC; "
+                   "Go gives no control over the scheduler, so interleavings are sampled (capacities, pacing, GOMAXPROCS), not enumerated."),
+    "rule": ("Cases: (stream, input capacity in {0,1,2,64,4096}, output capacity in {0,1,8}, optional GOMAXPROCS in {1,2,16}, producer/consumer pacing scripts). "
+             "Non-trivial = the stream contains a 0xD3 and yields at least 2 messages, or it ends inside a candidate frame; distinct = distinct case hash."),
+    "assumptions": ["a second close() of a Go channel panics (language semantics) - that is how 'closed twice' is observed", "20 s watchdog, re-run once before a non-termination is reported", "Go toolchain, rapid v1.3.0"],
+    "min_evals": {"quick": 4000, "thorough": 200000},
+    "legs": [
+        Leg("stream", "c02", "^TestStream$", checks=(3000, 25000), shards=(2, 12), tests=["stream"]),
+        Leg("stream-race", "c02", "^TestStream$", race=True, checks=(600, 6000), shards=(2, 8), tests=["stream"]),
+    ],
+}
+
+PROPS["C03"] = {
+    "title": "Every valid frame not preceded by a stray 0xD3 is recognised, once, in order",
+    "level": "exploration",
+    "technique": "property-based testing (rapid) over constructed segment lists + complete sweep of all payload lengths; oracle: exact expected delivery list, cross-checked against an independent reference framer",
+    "level_text": ("Generated-input exploration with an exact oracle: streams are constructed from valid frames (any type, payload 1..1023, fills rich in 0xD3), "
+                   "0xD3-free junk runs and an optional truncated tail, so the expected (type, bytes) list is known by construction and must be matched exactly; "
+                   "every payload length 1..1023 is swept deterministically. The space of such streams is infinite, hence exploration."),
+    "rule": ("Cases: list of up to 10 segments valid(type, L, fill) / junk(no 0xD3) + optional truncated tail cut in leader / first 5 bytes / payload / CRC, "
+             "input channel capacity in {0,16,4096}; plus the lengths sweep (frame, back-to-back frame of 0xD3 bytes, 1-byte junk, frame for every L). "
+             "Non-trivial = at least 2 frames and one of: payload >= 256, a 0xD3 inside a frame, a 1-byte junk run directly before a frame, a truncated tail; "
+             "distinct = distinct case hash."),
+    "assumptions": ["harness CRC-24Q and reference framer (cross-checked against each other; disagreement exits 2, never 1)", "Go toolchain, rapid v1.3.0"],
+    "min_evals": {"quick": 4000, "thorough": 200000},
+    "legs": [
+        Leg("lengths", "c03", "^TestLengths$", engine="enumerate", rapid=False, shards=(1, 1), tests=["lengths"]),
+        Leg("stream", "c03", "^TestStream$", checks=(8000, 30000), shards=(2, 16), tests=["stream"]),
+    ],
+}
+
+PROPS["C12"] = {
+    "title": "A frame corrupted in payload or CRC is discarded alone; its neighbours survive",
+    "level": "fault_enumeration",
+    "technique": "fault enumeration (every single-bit fault of short victim frames) + property-based testing (rapid) of random fault sets; oracle: expected list of the clean stream with the victim demoted to one non-RTCM message",
+    "level_text": ("Fault enumeration plus generated fault sets: for victim frames with payloads of 1..40 bytes every single-bit fault in payload and CRC is "
+                   "injected (between frames and between junk), and random streams get random victims with bit flips, CRC-byte faults, 0xD3 overwrites, bursts "
+                   "and scattered faults; the delivered list must equal the clean stream's list with only the victim changed. Multi-bit fault sets are sampled."),
+    "rule": ("Cases: (clean C03-style stream, victim frame index, non-empty set of byte XOR faults at offsets >= 3 of the victim); faults that leave the CRC "
+             "matching (checked with the independent CRC) are discarded and counted. Non-trivial = the victim has a neighbour on both sides; distinct = distinct case hash."),
+    "assumptions": ["harness CRC-24Q and reference framer", "Go toolchain, rapid v1.3.0"],
+    "min_evals": {"quick": 10000, "thorough": 300000},
+    "legs": [
+        Leg("single-bit", "c12", "^TestSingleBit$", engine="enumerate", rapid=False, shards=(1, 1), tests=["single-bit"]),
+        Leg("fault", "c12", "^TestFault$", checks=(8000, 30000), shards=(2, 16), tests=["fault"]),
+    ],
+}
